@@ -9,6 +9,7 @@
 -/
 import Yld.Model.Parser
 import Yld.Proofs.Grammar
+import Yld.Proofs.LexFaithful
 namespace Yld.C10
 
 private theorem scan_no_quote (cs : List Char) (n : Nat) (b : Bool) (h : '\'' ∉ cs) : scanString cs n b none = none := by
@@ -93,5 +94,17 @@ theorem front_end_accepts_only_sentences (s : String) (r : List SClause × Bool)
 
 /-- Non-vacuity: `p.` is a sentence. -/
 example : recogniseToks 2 [.atom "p", .dot] = true := by decide
+
+/-! ### The lexer neither omits nor alters anything -/
+
+/-- The text is cut into consecutive segments, each either skipped or a token whose text is the
+    segment verbatim (a quoted atom keeps its raw text, quotes and backslashes included). -/
+theorem lexer_is_faithful (s : String) (toks : List Tok) (h : lex s = some toks) : Lexed s.toList toks :=
+  lex_faithful s toks h
+
+/-- … and the only things skipped are white space and comments. -/
+theorem only_white_space_and_comments_are_skipped (cs : List Char) (n : Nat) (h : lexOne cs = some (none, n)) :
+    ∃ c rest, cs = c :: rest ∧ (isWs c = true ∨ c = '%') :=
+  skipped_is_ws_or_comment cs n h
 
 end Yld.C10
